@@ -427,6 +427,15 @@ func Violate(property, oracle, format string, a ...any) {
 	}
 }
 
+// ViolateQuiet records a violation without ending the run (collected findings: data races).
+func ViolateQuiet(property, oracle, format string, a ...any) {
+	v := Violation{Property: property, Oracle: oracle, Detail: fmt.Sprintf(format, a...), At: Now().String()}
+	logMu.Lock()
+	v.Seq = logTotal
+	violations = append(violations, v)
+	logMu.Unlock()
+}
+
 func Violations() []Violation {
 	logMu.Lock()
 	defer logMu.Unlock()
